@@ -74,8 +74,18 @@ def enc(v):
     raise ValueError(v)
 
 
-def impl(f, *a):
-    try: r = f(*a)
+TIMEOUTS = {}
+CASE_SECONDS = 10
+
+
+def impl(f, *a, kind='misc'):
+    """one call into the implementation, under the time guard; after two runaways of a kind the rest of that kind is not run"""
+    if TIMEOUTS.get(kind, 0) >= 2: return 'RAISE DoesNotTerminate (not run: two earlier cases of this kind did not terminate)'
+    try:
+        with orc.guard(CASE_SECONDS): r = f(*a)
+    except orc.DoesNotTerminate:
+        TIMEOUTS[kind] = TIMEOUTS.get(kind, 0) + 1
+        return 'RAISE DoesNotTerminate'
     except RecursionError: return 'RAISE OutOfFuel'
     except Exception as e: return 'RAISE ' + type(e).__name__
     if r is None: return 'NONE'
@@ -103,7 +113,7 @@ def cases(ctx):
     rng = ctx.rng
     out = []       # (line, implementation result)
     def add(kind, args, f, fargs=None):
-        out.append(('\t'.join([kind] + [enc(a) for a in args]), impl(f, *(fargs if fargs is not None else args))))
+        out.append(('\t'.join([kind] + [enc(a) for a in args]), impl(f, *(fargs if fargs is not None else args), kind=kind)))
     # five-character names over a small alphabet: exhaustive; other lengths: raise paths
     alpha = 'aZ 019'
     names = [''.join(t) for t in itertools.product(alpha, repeat=5)]
@@ -290,8 +300,11 @@ def oracle(ctx):
                         raised = False
                         for num in range(1, top + 1):
                             n += 1
-                            try: nm = fn(num, jf, chars, sp)
+                            try:
+                                with orc.guard(CASE_SECONDS): nm = fn(num, jf, chars, sp)
                             except mg.NamingConventionError: raised = True; continue
+                            except orc.DoesNotTerminate:
+                                ctx.failure('generated-names', '%s_name_from_number:does-not-terminate' % what, {'convention': conv, 'num': num, 'chars': chars, 'spaces': sp, 'justify': jf.__name__}, 'no result after %d s' % CASE_SECONDS, 'name or NamingConventionError'); break
                             except Exception as e:
                                 ctx.failure('generated-names', '%s_name_from_number:unexpected-exception' % what, {'convention': conv, 'num': num, 'chars': chars, 'spaces': sp, 'justify': jf.__name__}, type(e).__name__, 'name or NamingConventionError'); break
                             inp = {'convention': conv, 'num': num, 'chars': chars, 'spaces': sp, 'justify': jf.__name__}
@@ -314,10 +327,13 @@ def oracle(ctx):
                         ng += 1
                         ctx.count(('geo', str(inp)))
                         try:
-                            geo = mg.mulgrid().rectangular([10.] * nx, [10.] * ny, [5.] * nz, convention=conv, atmos_type=atm,
-                                                           justify=justify, chars=chars, spaces=sp)
+                            with orc.guard(60):
+                                geo = mg.mulgrid().rectangular([10.] * nx, [10.] * ny, [5.] * nz, convention=conv, atmos_type=atm,
+                                                               justify=justify, chars=chars, spaces=sp)
                         except mg.NamingConventionError:
                             continue        # explicit naming error: allowed when the name space is exhausted
+                        except orc.DoesNotTerminate:
+                            ctx.failure('constructed-geometries', 'rectangular:does-not-terminate', inp, 'no result after 60 s', 'geometry or NamingConventionError'); continue
                         except Exception as e:
                             ctx.failure('constructed-geometries', 'rectangular:unexpected-exception', inp, type(e).__name__, 'geometry or NamingConventionError'); continue
                         # the geometry has every layer, column and block that was asked for (a name collision
@@ -351,7 +367,9 @@ def oracle(ctx):
                     inp = {'add_layers': n, 'convention': conv, 'justify': justify, 'chars': chars, 'spaces': sp}
                     nl += 1
                     ctx.count(('addlay', str(inp)))
-                    ok, what = check_add_layers(mg, inp)
+                    try:
+                        with orc.guard(60): ok, what = check_add_layers(mg, inp)
+                    except orc.DoesNotTerminate: ok, what = False, 'does-not-terminate'
                     if not ok: ctx.failure('add-layers', 'add_layers:' + what, inp, what, 'surface layer + %d distinct layer names of the convention\'s length, or NamingConventionError' % n)
     ctx.oracle_cases('add-layers', nl)
     # (5) new_column_name / new_node_name on a constructed geometry: an unused name of the convention's length
@@ -362,7 +380,9 @@ def oracle(ctx):
                 inp = {'new_name': True, 'convention': conv, 'justify': justify, 'chars': chars, 'spaces': sp}
                 nk += 1
                 ctx.count(('newname', str(inp)))
-                ok, what = check_new_names(mg, inp)
+                try:
+                    with orc.guard(60): ok, what = check_new_names(mg, inp)
+                except orc.DoesNotTerminate: ok, what = False, 'does-not-terminate'
                 if not ok: ctx.failure('new-names', 'new_dict_key:' + what, inp, what, 'an unused name of the convention\'s length, or NamingConventionError')
     ctx.oracle_cases('new-names', nk)
     # (6) geometries the library constructs with every `case` option / mixed-case or repeating character sets, and by EDITING
@@ -370,20 +390,27 @@ def oracle(ctx):
     #     distinct, of the convention's length, lists and by-name dictionaries agree, every block present, block names invertible
     scs = orc.scenarios(rng, ctx.thorough)
     kinds = {}
+    runaways = 0
     for sc in scs:
         ctx.count(('scenario', str(sc)))
         for op in sc['ops']: kinds[op[0]] = kinds.get(op[0], 0) + 1
         kinds['base:' + ('file' if 'file' in sc['base'] else 'rectangular')] = kinds.get('base:' + ('file' if 'file' in sc['base'] else 'rectangular'), 0) + 1
+        if runaways >= 3: break             # bounded run time whatever the tree does
         f = orc.run_scenario(mg, sc, ctx.repo)
         if f:
             key, observed, required, step = f
+            if key.endswith('does-not-terminate'): runaways += 1
             if step == 0: key = ('mulgrid(file):' if 'file' in sc['base'] else 'rectangular:') + key
             ctx.failure('constructed-and-edited-geometries', key, dict(sc, failed_step=step), observed, required)
     ctx.oracle_cases('constructed-and-edited-geometries', len(scs), operations=kinds)
     # (7) no state carried between calls / objects; caller-owned and default arguments left alone
     npur = 0
-    for name, key, inp, observed, required in orc.purity_checks(mg, rng):
-        ctx.failure('call-order-and-argument-purity', key, inp, observed, required)
+    try:
+        with orc.guard(300):
+            for name, key, inp, observed, required in orc.purity_checks(mg, rng):
+                ctx.failure('call-order-and-argument-purity', key, inp, observed, required)
+    except orc.DoesNotTerminate:
+        ctx.failure('call-order-and-argument-purity', 'purity:does-not-terminate', {'purity': None}, 'no result after 300 s', 'the checks end')
     ctx.count(('purity', ctx.seed)); npur += 4 * 150 * 3 + 3 + len(orc.DEFAULT_HOLDERS)
     ctx.oracle_cases('call-order-and-argument-purity', npur)
 
@@ -418,6 +445,13 @@ def check_new_names(mg, inp):
     return True, ''
 
 
+def guarded_oracle(ctx):
+    try:
+        with orc.guard(1500): oracle(ctx)
+    except orc.DoesNotTerminate:
+        ctx.failure('oracle', 'oracle:does-not-terminate', {'oracle': 'whole sweep'}, 'the oracle sweep did not end within 1500 s', 'the sweep ends')
+
+
 def run(ctx):
     ctx.rule = ('correspondence: every five-character name over the alphabet "aZ 019" (7776) plus random names of length 0..7, generator integers at every capacity boundary '
                 '(99/100, 702/703, 999/1000, 18278/18279 ...) plus random up to 20000, x 4 conventions x left/right justification x 8 alphabets x spaces; '
@@ -438,16 +472,28 @@ def run(ctx):
     if ok:
         ctx.coq_build(props=('Props.v', 'Props2.v', 'Props3.v'))
         exe = vf.build_driver(ctx)
-    if exe: correspond(ctx, exe)
-    oracle(ctx)
+    if exe:
+        try:
+            with orc.guard(1200): correspond(ctx, exe)
+        except orc.DoesNotTerminate:
+            ctx.proof_failures.append({'kind': 'correspondence', 'name': 'generated-naming-functions-vs-mulgrids', 'detail': 'the correspondence run did not end within 1200 s'})
+    guarded_oracle(ctx)
     def deep(broken):
         if not ctx.thorough:
             ctx.thorough = True
-            oracle(ctx)
+            guarded_oracle(ctx)
     return ctx.finish(deep_search=deep)
 
 
 def replay(ctx, data):
+    try:
+        with orc.guard(300): return replay_(ctx, data)
+    except orc.DoesNotTerminate:
+        print('replay: does not terminate')
+        return True
+
+
+def replay_(ctx, data):
     import mulgrids as mg
     inp = data.get('input') or {}
     key = data.get('finding_key', '')
